@@ -165,8 +165,19 @@ def classify(prop, vio, known):
         if e.get("property") != prop or e.get("status") != "known":
             continue
         m = e.get("match", {})
-        if m and all(vio["key"].get(k) == v for k, v in m.items()):
-            return e
+        if not (m or e.get("match_in")) or not all(vio["key"].get(k) == v for k, v in m.items()):
+            continue
+        mi = e.get("match_in", {})
+        if not all(vio["key"].get(k) in v for k, v in mi.items()):
+            continue
+        tags = set(vio["key"].get("tags") or [])
+        anyt = e.get("match_any_tag")
+        if anyt is not None and not (tags & set(anyt)):
+            continue
+        sub = e.get("match_tags_subset_of")  # every tag of the violation must be covered by the finding
+        if sub is not None and not (tags and tags <= set(sub)):
+            continue
+        return e
     return None
 
 
@@ -312,10 +323,10 @@ def parent(args):
     rdir = os.path.join(VERIF, "replays", args.prop)
     for v in unlisted:
         k = json.dumps(v["key"], sort_keys=True)
-        if k in seen_keys and len(replay_paths) >= 3:
+        if k in seen_keys:
             continue
         seen_keys.add(k)
-        if len(replay_paths) >= 12:
+        if len(replay_paths) >= 40:
             break
         os.makedirs(rdir, exist_ok=True)
         path = os.path.join(rdir, case_hash(v) + ".json")
@@ -372,6 +383,13 @@ def parent(args):
     for k, (e, n) in known_hit.items():
         print(f"KNOWN-FINDING: property={args.prop} {e['what_fails']} [key={k}, hits={n}]")
     if unlisted:
+        keys = {}
+        for v in unlisted:
+            k = json.dumps(v["key"], sort_keys=True)
+            keys[k] = keys.get(k, 0) + 1
+        print(f"[{args.prop}] unlisted violation keys ({len(keys)}):")
+        for k, n in sorted(keys.items(), key=lambda kv: -kv[1])[:60]:
+            print(f"      {n:5d} x {k}")
         for path, v in replay_paths:
             print(f"VIOLATION property={args.prop} replay={path}")
             print(f"   key={json.dumps(v['key'])} detail={json.dumps(v['detail'])[:600]}")
